@@ -9,6 +9,7 @@ func c18(args []string) int {
 	run.Sum.Rule = "hpack: (a) integers: boundary and random uint64 values x prefix 1..8, whole / with tail / every proper prefix, plus malformed continuation runs; " +
 		"(b) Huffman: every symbol, random strings (all byte values, long runs, rare symbols), encodings and their corruptions with and without length limit; " +
 		"(c) sessions of 3-20 ops: header blocks (1-8 fields: static-table names, repeated fields, fresh names, values 0..5000 bytes, 12% sensitive) interleaved with SetMaxDynamicTableSize from {0,1,31..65536}, encoded by MOSN's and by x/net's encoder, decoded whole or in random chunks by MOSN's decoder, x/net's decoder and the model; " +
+		"(c') exact-fill sessions: table sizes 128..4096, entries whose sizes divide the table size (table exactly full, one byte under/over), the list re-sent (indexed references to the oldest entries), size changes to exactly / around the current size, both encoders; after every block both decoders must agree on outcome, header list and dynamic table (tables read through the wire by indexed probes); " +
 		"(d) blocks of random VALID representations (any index, either string coding, all three literal kinds, size updates, non-canonical integers). " +
 		"A session is non-trivial with >= 2 blocks; distinct by full content. " +
 		"frames: sequences of 1-8 valid frames of all ten types and unknown types (DATA/HEADERS/PUSH_PROMISE padding, priority, 0-5 CONTINUATIONs incl. empty fragments, header blocks from one x/net hpack encoder per connection) written by x/net's Framer, parsed by MOSN's MFramer under several chunkings, by x/net's Framer and by the model; every frame writer of MFramer and x/net against the model serialiser. " +
@@ -18,6 +19,8 @@ func c18(args []string) int {
 	hpackHuffman(run, ss)
 	hpackSessions(run, ss, "mosn", run.N(120, 1500))
 	hpackSessions(run, ss, "xnet", run.N(80, 1000))
+	hpackSessionsGen(run, ss, "mosn", run.N(40, 500), "-exact-fill", genExactFillSession)
+	hpackSessionsGen(run, ss, "xnet", run.N(40, 500), "-exact-fill", genExactFillSession)
 	hpackReprSessions(run, ss, run.N(150, 2000), false)
 	hpackReprSessions(run, ss, run.N(60, 800), true)
 	hpackKnobSessions(run, ss, run.N(60, 800))
@@ -25,6 +28,7 @@ func c18(args []string) int {
 	framesWriters(run, ss, run.N(40, 400))
 	framesPreface(run, ss)
 	connHeaders(run, run.N(40, 400))
+	flowPart(run, ss)
 	ss.close()
 	return run.Finish()
 }
